@@ -70,7 +70,7 @@ class G:
         if r < 0.5:
             return F(tbl, self.ch(COLS), alias=self.ch([None, None, "k1"]))
         if r < 0.7:
-            return {"t": "bin", "op": self.ch(["add", "mul", "sub"]), "l": F(tbl, self.ch(COLS)), "r": self.ch([1, 2])}
+            return {"t": "bin", "op": self.ch(["add", "mul", "sub"]), "l": F(tbl, self.ch(COLS)), "r": self.ch([1, 2, -1, -2.5])}
         if r < 0.85:
             return {"t": "new", "c": self.ch(["fn.Sum", "fn.Count", "fn.Max", "fn.Upper"]), "a": [F(tbl, self.ch(COLS))],
                     "kw": {"alias": self.ch(["s1", "s2"])} if self.p(0.5) else {}}
@@ -213,8 +213,9 @@ class G:
             A.append({"group": "modifier", "calls": [{"m": "modifier", "a": [x]} for x in
                                                       ["SQL_CALC_FOUND_ROWS", "HIGH_PRIORITY"][: self.rng.randint(1, 2)]]})
         if cls == "PostgreSQLQuery" and self.p(0.4):
+            # strings, plain fields, and the aliased term as it stands in the select list (a term object reused)
             A.append({"group": "distinct_on", "calls": [{"m": "distinct_on", "a": [self.ch(COLS) if (mode == "main" and self.p(0.3))
-                                                                                       else F(TA, self.ch(COLS))]}
+                                                                                       else F(TA, self.ch(COLS), alias=self.ch([None, None, "k1"]))]}
                                                          for _ in range(self.rng.randint(1, 2))]})
         if self.p(0.25):
             A.append({"group": "from2", "calls": [{"m": "from_", "a": [self.from_item(cls)]}]})
@@ -398,7 +399,7 @@ class G:
                         self.tail = [{"m": "where", "a": [self.crit(TA)]}]
                     c = None
                 else:
-                    c.append({"m": "on_conflict", "a": [self.ch(COLS) if self.p(0.7) else F(TA, self.ch(COLS))]
+                    c.append({"m": "on_conflict", "a": [self.ch(COLS) if self.p(0.7) else F(TA, self.ch(COLS), alias=self.ch([None, "k1"]))]
                               + ([self.ch(COLS)] if self.p(0.2) else [])})
                     if self.p(0.3):
                         c.append({"m": "where", "a": [self.crit(TA)]})
@@ -911,6 +912,13 @@ def riders(prog, merge, prefixes, L, stats):
                 if "DISTINCT" in words and words[0] != "DISTINCT":
                     bad.append(("select-prefix", f"DISTINCT is not the first word after SELECT: {sql[:80]}"))
                 break
+        cm = sqllex.comment_markers(sql, iq, bs)
+        if cm and not bs:
+            bad.append(("comment-marker", f"...{cm[0]}... in {sql[:120]}"))
+        # no alias inside predicates, grouping/sort keys, VALUES rows, DISTINCT ON(...) and conflict targets
+        jx = sqllex.predicate_juxtapositions(sql, iq, bs)
+        if jx:
+            bad.append((f"alias-in-predicate[{jx[0][0]}]".replace(" ", "_"), f"...{jx[0][1]}... in {sql[:120]}"))
         # a clause keyword is followed by a body (the generator never asks for an empty clause)
         for k, (name, first, after) in enumerate(cl):
             if name in NEEDS_BODY:
@@ -1077,6 +1085,9 @@ def population_riders(L, o, kd):
             # the value was wrapped, does not double backslashes)
             name = "balance[backslash-quote]"
         return cls, sql, [(name, f"{e}: {sql[:160]}")]
+    cm = sqllex.comment_markers(sql, iq, bs)
+    if cm and not bs:  # MySQL needs white space after "--" for a comment
+        bad.append(("comment-marker", f"...{cm[0]}... in {sql[:160]}"))
     # an alias rendered inside a predicate-like clause (of the statement or of a nested SELECT) is never grammatical
     jx = sqllex.predicate_juxtapositions(sql, iq, bs)
     if jx:
@@ -1104,7 +1115,7 @@ def population_program(rng):
                   "p_new": 0.5, "p_leaf": 0.0, "depth": rng.choice([2, 3, 4]), "select_subqueries_only": True})
     if rng.random() < 0.6:
         # one dialect and many by-reference arguments: SELECTs of the heap embedded in parents of their own class
-        knobs["qcls"] = [rng.choice(QCLS)]
+        knobs["qcls"] = [rng.choice(QCLS + ["SQLLiteQuery", "SQLLiteQuery"])]
         knobs["p_ref"] = 0.7
     env = lang.Env(share_tables=knobs["share_tables"])
     g = gen.Gen(rng, knobs, env)
@@ -1112,6 +1123,22 @@ def population_program(rng):
     for _ in range(knobs["nops"]):
         i = g.next_op()
         env.heap.append(engine.exec_op(env, g.program[i]))
+    if rng.random() < 0.6:
+        # a plain SELECT with the clauses every dialect has (and, half of the time, a WITH clause) as one more candidate
+        gg = G(rng)
+        C0 = {"t": "cls", "name": rng.choice(knobs["qcls"])}
+        q = {"t": "meth", "x": {"t": "meth", "x": C0, "m": "from_", "a": [TC]}, "m": "select",
+             "a": [F(TC, "x", alias=rng.choice([None, "k1"])), F(TC, "y")]}
+        if rng.random() < 0.6:
+            q = {"t": "meth", "x": q, "m": "where", "a": [gg.crit(TC)]}
+        if rng.random() < 0.5:
+            q = {"t": "meth", "x": q, "m": "with_", "a": [gg.subq(C0["name"]), "cte9"]}
+        if rng.random() < 0.3:
+            q = {"t": "meth", "x": q, "m": "orderby", "a": [F(TC, "x")]}
+        if rng.random() < 0.3:
+            q = {"t": "meth", "x": q, "m": "limit", "a": [5]}
+        k = g.emit({"op": "new", "x": q})
+        env.heap.append(engine.exec_op(env, g.program[k]))
     # parents that embed a SELECT of the heap in the positions that are rendered with aliases switched on
     sels = [i for i, v in enumerate(env.heap) if engine.is_object_slot(v) and obs.kind_of(g.L, v) == "qb"
             and population_kind(v) == "select" and lib.state(v).get("_selects")]
@@ -1139,6 +1166,7 @@ def population_program(rng):
                  "m": "where", "a": [{"t": "meth", "x": F(TB, "y"), "m": "isin", "a": [S]}]}
         k = g.emit({"op": "new", "x": x})
         env.heap.append(engine.exec_op(env, g.program[k]))
+        knobs.setdefault("_parents", []).append(k)
     return g.program, env, knobs
 
 
@@ -1146,6 +1174,9 @@ def population_run(seed, run, rng):
     from . import engine, shrink
     L = lib.get()
     program, env, knobs = population_program(rng)
+
+    class g_parents:  # indices of the template parents appended by population_program
+        idx = set(knobs.pop("_parents", ()))
     res = {"run": run, "config": "population", "violations": [], "harness": [], "discard": None, "merges": 0,
            "calls": len(program), "actors": 0, "stats": collections.Counter(), "shape": None, "nontrivial": True,
            "kind": "population", "cls": "*", "groups": []}
@@ -1162,7 +1193,7 @@ def population_run(seed, run, rng):
         res["stats"]["population_statements"] += 1
         trail.append(sql)
         for name, detail in bad:
-            sig = f"{PROP}:rider:{name}:population" if name.startswith(("clause-order", "alias-in-predicate")) \
+            sig = f"{PROP}:rider:{name}:population" if name.startswith(("clause-order", "alias-in-predicate", "comment-marker")) \
                 else f"{PROP}:rider:{name}:{cls}:population"
             if any(x["signature"] == sig for x in res["violations"]):
                 continue
@@ -1201,6 +1232,19 @@ def population_run(seed, run, rng):
             if inner_n[:min(24, len(inner_n))] not in outer_n:
                 continue  # the argument is not part of the parent's text (dropped, or used as something else)
             res["stats"]["subquery_embeddings_compared"] += 1
+            if cls == "SQLLiteQuery" and j in getattr(g_parents, "idx", ()) and sqlite_parse_error(inner) is None:
+                # SQLite accepts the SELECT on its own, and the parent around it is a plain template: it must accept both
+                res["stats"]["sqlite_nested_prepared"] += 1
+                err = sqlite_parse_error(outer)
+                if err:
+                    sig = f"{PROP}:rider:sqlite-parse-nested:population"
+                    if not any(x["signature"] == sig for x in res["violations"]):
+                        keep = sorted(lang.cone(program, j))
+                        p2, mp = shrink.slice_program(program, keep)
+                        res["violations"].append({"signature": sig, "payload": {
+                            "property": PROP, "seed": seed, "run": run, "signature": sig, "kind": "population-nested",
+                            "program": p2, "victim": mp[j], "sub": mp[i], "share_tables": knobs["share_tables"],
+                            "rider": "sqlite-parse-nested", "detail": f"{err}: {outer[:300]}"}})
             if inner_n not in outer_n:
                 sig = f"{PROP}:rider:subquery-context:population"
                 if any(x["signature"] == sig for x in res["violations"]):
@@ -1242,6 +1286,19 @@ def replay_population_context(payload):
     inner = S.get_sql(L.CTX[cls].copy(with_alias=False, subquery=False))
     inner, outer = _noparens(inner), _noparens(outer)
     if inner[:min(24, len(inner))] in outer and inner not in outer:
+        return True, payload["signature"]
+    return False, "not reproduced"
+
+
+def replay_population_nested(payload):
+    from . import engine
+    L = lib.get()
+    env = engine.execute(payload["program"], share_tables=payload.get("share_tables", True))
+    P, S = env.heap[payload["victim"]], env.heap[payload["sub"]]
+    if not (engine.is_object_slot(P) and engine.is_object_slot(S)):
+        return False, "not reproduced (objects did not build)"
+    ctx = L.CTX["SQLLiteQuery"]
+    if sqlite_parse_error(S.get_sql(ctx.copy(with_alias=False, subquery=False))) is None and sqlite_parse_error(P.get_sql(ctx)):
         return True, payload["signature"]
     return False, "not reproduced"
 
@@ -1335,6 +1392,8 @@ def replay(payload):
         return replay_population(payload)
     if kind == "population-context":
         return replay_population_context(payload)
+    if kind == "population-nested":
+        return replay_population_nested(payload)
     can = canonical(prog)
     if kind == "noncommuting":
         ref = outcome(prog, can, okw)
